@@ -171,8 +171,8 @@ def run(ctx):
                 "non-trivial = at least one update stamped at or before t2 (something is applied or rejected); "
                 "each way/relation case runs ApplyUpdatesUpTo three times on copies of one element (own child list, shared "
                 "update list), LineStringAt on the element before and after (ways), LineString, UpTo twice, both sorts; "
-                "each group case runs mputil.Group on a member list naming the way 0..m times; group cases are non-trivial "
-                "when the way is a member" % cfg)
+                "each group case runs a sequence of mputil.Group / LineStringAt queries (times going up, down or repeating) on one "
+                "way object with a member list naming the way 0..m times; group cases are non-trivial when the way is a member" % cfg)
     ctx.assumptions = [
         "symbolic values: times 0..tmax, coordinates/changesets/versions small integers mapped injectively by the harness "
         "(five time profiles rotated over the cases, offset by the seed: 1 s / 1 ns / 1 h / 1 day steps, epoch, 2038, a "
@@ -182,6 +182,10 @@ def run(ctx):
         "TLC per case elsewhere); no Judge mentions them: the property does not, so no answer may depend on them",
         "'a copy' of an element = struct copy with its own child list and the same update list value (what Go code "
         "does; the pinned ApplyUpdatesUpTo never writes to the list it was given)",
+        "relation members carry a role and (way members 1 and 4) an optional node path; the Judge's frame condition is "
+        "generic: every field of a named child other than version, changeset, lat, lon, orientation is as before",
+        "a geometry-at-time query is read-only: every answer of a query sequence is judged against copies taken before "
+        "the sequence, and the way must be unchanged after it (QueryPureJ)",
         "mputil.Group is internal to the module and is bound with go:linkname (harness/internal/c15mp); the real code runs",
         "location symbols: ordinary (distinct, non-zero), the origin (exactly 0,0), only lat 0, only lon 0 - on "
         "annotated children and on updates (every combination in the smp = -2 plan entries, drawn by TLC elsewhere); "
